@@ -116,3 +116,1233 @@ Proof.
   intros fs H. unfold fields_of. rewrite (split_on_flat fs H), rev_app_distr. cbn [rev app].
   apply rev_involutive.
 Qed.
+
+Lemma zlen_app : forall {A} (a b : list A), zlen (a ++ b) = (zlen a + zlen b)%Z.
+Proof. intros. unfold zlen. rewrite app_length. lia. Qed.
+
+(* the decision on a complete, consistent field list *)
+Lemma decode_fields_ok : forall G bs silent rawlen idx encoded t0 f1v f2 rest bl st,
+  cfree 61 t0 -> py_int f1v = Some bl ->
+  (zlen (field t0 bs) + zlen (field T9 f1v) + 9 + bl <= rawlen)%Z ->
+  let fields := field t0 bs :: field T9 f1v :: f2 :: rest in
+  fields_loop G ((sum_codes (join SOHs (removelast fields)) + 1) mod 256) (mkD [] [] UNKNOWN false) fields = FCont st ->
+  d_ck st = true ->
+  decode_fields G bs silent rawlen idx encoded fields =
+  Ok (Some (mkMsg (d_type st) (d_root st)),
+      (Z.of_nat idx + (zlen (field t0 bs) + zlen (field T9 f1v) + 9 + bl))%Z, Some encoded).
+Proof.
+  intros G bs silent rawlen idx encoded t0 f1v f2 rest bl st Ht0 Hbl Hlen fields Hloop Hck.
+  unfold decode_fields. subst fields. cbv zeta in Hloop.
+  unfold field at 1. rewrite (split1_field 61 t0 bs Ht0). rewrite str_eqb_refl. cbn [negb].
+  unfold field at 1, T9. rewrite (split1_field 61 [57] f1v) by (intros [E|[]]; discriminate).
+  fold T9. rewrite str_eqb_refl. cbn [negb]. rewrite Hbl.
+  fold (field t0 bs). fold (field T9 f1v).
+  destruct (rawlen <? _)%Z eqn:E; [lia|].
+  rewrite Hloop, Hck. reflexivity.
+Qed.
+
+(* ------------------------------------------------------------------ Part B: the encoder's frame *)
+
+Definition frame_fields (bs : str) (m : message) (sess : session) (seq time : str) : list str :=
+  field T8 bs :: field T9 (n_to_dec (enc_blen m sess seq time)) :: enc_fields m sess seq time
+  ++ [field T10 (fmt03 (enc_ck bs m sess seq time))].
+
+Lemma flat_concat : forall fs, concat (map (fun f => f ++ SOHs) fs) = flat fs.
+Proof. reflexivity. Qed.
+
+Definition enc_frame (bs : str) (m : message) (sess : session) (seq time : str) (rest : list str) : str :=
+  let fields := field T49 (sender sess) :: field T56 (target sess) :: field T34 seq :: field T52 time :: rest in
+  let body := join SOHs fields ++ SOHs in
+  let mt := field T35 (msg_type m) in
+  let blen := N.of_nat (length body + length mt + 1) in
+  let header := [field T8 bs; field T9 (n_to_dec blen); mt] in
+  let fixmsg := join SOHs header ++ SOHs ++ body in
+  fixmsg ++ field T10 (fmt03 (checksum fixmsg)) ++ SOHs.
+
+Lemma encode_eq : forall bs m sess time raw,
+  encode bs m sess time raw =
+  match select_seq m sess raw with
+  | Exc e => Exc e
+  | Ok (seq, sess') =>
+      match render_body (msg_tags m) with
+      | Exc e => Exc e
+      | Ok rest => Ok (enc_frame bs m sess seq time rest, sess')
+      end
+  end.
+Proof.
+  intros. unfold encode, bind. destruct (select_seq m sess raw) as [[seq s']|e]; [|reflexivity].
+  destruct (render_body (msg_tags m)); reflexivity.
+Qed.
+
+Lemma enc_frame_flat : forall bs m sess seq time rest,
+  render_body (msg_tags m) = Ok rest ->
+  enc_frame bs m sess seq time rest = flat (frame_fields bs m sess seq time).
+Proof.
+  intros bs m sess seq time rest Er.
+  unfold enc_frame, frame_fields, enc_ck, enc_blen, enc_fields, render_total, fields_len. rewrite Er. rewrite !flat_concat.
+  cbv zeta.
+  set (bf := field T49 (sender sess) :: field T56 (target sess) :: field T34 seq :: field T52 time :: rest).
+  set (mt := field T35 (msg_type m)).
+  assert (Hb : join SOHs bf ++ SOHs = flat bf) by (apply join_flat; discriminate).
+  assert (Hl : (length (join SOHs bf ++ SOHs) + length mt + 1 = length (flat (mt :: bf)))%nat).
+  { rewrite Hb, flat_cons, app_length. cbn [length]. lia. }
+  rewrite Hl. set (f9 := field T9 (n_to_dec (N.of_nat (length (flat (mt :: bf)))))).
+  change (join SOHs [field T8 bs; f9; mt]) with (field T8 bs ++ [1] ++ f9 ++ [1] ++ mt).
+  rewrite Hb.
+  assert (Hm : (field T8 bs ++ [1] ++ f9 ++ [1] ++ mt) ++ SOHs ++ flat bf = flat (field T8 bs :: f9 :: mt :: bf)).
+  { rewrite !flat_cons. unfold SOHs. rewrite <- !app_assoc. reflexivity. }
+  rewrite Hm.
+  change (field T8 bs :: f9 :: (mt :: bf) ++ [field T10 (fmt03 (checksum (flat (field T8 bs :: f9 :: mt :: bf))))])
+    with ((field T8 bs :: f9 :: mt :: bf) ++ [field T10 (fmt03 (checksum (flat (field T8 bs :: f9 :: mt :: bf))))]).
+  rewrite flat_app. f_equal. rewrite flat_cons. cbn [flat map concat]. rewrite app_nil_r.
+  unfold SOHs. rewrite <- app_assoc. reflexivity.
+Qed.
+
+Lemma encode_shape : forall bs m sess time raw frame sess',
+  encode bs m sess time raw = Ok (frame, sess') ->
+  exists seq rest, select_seq m sess raw = Ok (seq, sess') /\ render_body (msg_tags m) = Ok rest
+    /\ frame = flat (frame_fields bs m sess seq time).
+Proof.
+  intros bs m sess time raw frame sess' H. rewrite encode_eq in H.
+  destruct (select_seq m sess raw) as [[seq s']|e] eqn:Es; [|discriminate].
+  destruct (render_body (msg_tags m)) as [rest|e] eqn:Er; [|discriminate].
+  exists seq, rest. rewrite <- (enc_frame_flat bs m sess seq time rest Er).
+  split; [congruence|]. split; [reflexivity | congruence].
+Qed.
+
+(* ------------------------------------------------------------------ Part C: containers and single steps *)
+
+Lemma mem_str_In : forall x l, mem_str x l = true <-> In x l.
+Proof.
+  intros x l. unfold mem_str. rewrite existsb_exists. split.
+  - intros [y [I E]]. apply str_eqb_eq in E. subst. assumption.
+  - intro I. exists x. split; [assumption | apply str_eqb_refl].
+Qed.
+
+Lemma mem_str_false : forall x l, mem_str x l = false <-> ~ In x l.
+Proof.
+  intros x l. split; intro H.
+  - intro I. apply mem_str_In in I. congruence.
+  - destruct (mem_str x l) eqn:E; [apply mem_str_In in E; contradiction | reflexivity].
+Qed.
+
+Lemma mem_str_cons : forall x y l, mem_str x (y :: l) = str_eqb x y || mem_str x l.
+Proof. reflexivity. Qed.
+
+Lemma ct_get_none : forall t c, ct_get t c = None <-> mem_str t (map fst c) = false.
+Proof.
+  intros t c. induction c as [|[k v] c IH]; cbn [ct_get map fst]; [split; reflexivity|].
+  rewrite mem_str_cons, (str_eqb_sym t k). destruct (str_eqb k t); cbn [orb]; [split; discriminate | exact IH].
+Qed.
+
+Lemma ct_get_some : forall t c, mem_str t (map fst c) = true -> exists v, ct_get t c = Some v.
+Proof.
+  intros t c H. destruct (ct_get t c) eqn:E; [eexists; reflexivity|].
+  apply ct_get_none in E. congruence.
+Qed.
+
+Lemma ct_get_app : forall t a b,
+  ct_get t (a ++ b) = match ct_get t a with Some v => Some v | None => ct_get t b end.
+Proof.
+  intros t a b. induction a as [|[k v] a IH]; cbn [app ct_get]; [reflexivity|].
+  destruct (str_eqb k t); [reflexivity | exact IH].
+Qed.
+
+Lemma ct_put_new : forall t v c, ct_get t c = None -> ct_put t v c = c ++ [(t, v)].
+Proof.
+  intros t v c. induction c as [|[k w] c IH]; cbn [ct_get ct_put app]; intro H; [reflexivity|].
+  destruct (str_eqb k t); [discriminate | rewrite (IH H); reflexivity].
+Qed.
+
+Lemma ct_put_last : forall t v w c, ct_get t c = None -> ct_put t v (c ++ [(t, w)]) = c ++ [(t, v)].
+Proof.
+  intros t v w c. induction c as [|[k u] c IH]; cbn [ct_get ct_put app]; intro H.
+  - rewrite str_eqb_refl. reflexivity.
+  - destruct (str_eqb k t); [discriminate | rewrite (IH H); reflexivity].
+Qed.
+
+Lemma ct_mem_false : forall t c, ct_get t c = None -> ct_mem t c = false.
+Proof. intros t c H. unfold ct_mem. rewrite H. reflexivity. Qed.
+
+Lemma ct_set_new : forall t s c, has_int t = true -> ct_get t c = None -> ct_set t s c = Ok (c ++ [(t, VStr s)]).
+Proof.
+  intros t s c Hi Hg. unfold ct_set. unfold has_int in Hi. destruct (py_int t); [|discriminate].
+  rewrite (ct_mem_false _ _ Hg), (ct_put_new _ _ _ Hg). reflexivity.
+Qed.
+
+(* the group entry a parent holds for a child whose [done] items are closed *)
+Definition pend (t : str) (done : list container) : container :=
+  match done with [] => [] | _ => [(t, VGrp done)] end.
+
+Lemma ct_add_group_pend : forall t it b done, ct_get t b = None ->
+  ct_add_group t it (b ++ pend t done) = Ok (b ++ pend t (done ++ [it])).
+Proof.
+  intros t it b done H. unfold ct_add_group. rewrite ct_get_app, H.
+  destruct done as [|d done]; cbn [pend app ct_get].
+  - rewrite !app_nil_r. rewrite (ct_put_new _ _ _ H). reflexivity.
+  - rewrite str_eqb_refl. rewrite (ct_put_last _ _ _ _ H).
+    destruct (d :: done ++ [it]) eqn:E; [discriminate|]. rewrite <- E. reflexivity.
+Qed.
+
+(* ---------- frames: the contexts below the dangling ones, and the root ---------- *)
+
+Definition frame := (list ctx * container)%type.
+
+Definition top (fr : frame) : container :=
+  match fst fr with [] => snd fr | k :: _ => c_tags k end.
+
+Definition set_top (fr : frame) (b : container) : frame :=
+  match fst fr with
+  | [] => ([], b)
+  | k :: rest => (mkCtx (c_tag k) (c_members k) b :: rest, snd fr)
+  end.
+
+Definition accepts (fr : frame) (t : str) : Prop :=
+  match fst fr with [] => True | k :: _ => mem_str t (c_members k) = true end.
+
+Definition mkst (D : list ctx) (fr : frame) (ty : str) (ckf : bool) : dst :=
+  mkD (snd fr) (D ++ fst fr) ty ckf.
+
+Lemma top_set_top : forall fr b, top (set_top fr b) = b.
+Proof. intros [[|k K] root] b; reflexivity. Qed.
+
+Lemma set_top_set_top : forall fr b b', set_top (set_top fr b) b' = set_top fr b'.
+Proof. intros [[|k K] root] b b'; reflexivity. Qed.
+
+Lemma set_top_top : forall fr, set_top fr (top fr) = fr.
+Proof. intros [[|[t ms tg] K] root]; reflexivity. Qed.
+
+Lemma accepts_set_top : forall fr b t, accepts (set_top fr b) t <-> accepts fr t.
+Proof. intros [[|k K] root] b t; cbn; tauto. Qed.
+
+(* pushing a context on a frame *)
+Definition push (c : ctx) (fr : frame) : frame := (c :: fst fr, snd fr).
+
+Lemma mkst_push : forall D c fr ty ckf, mkst (D ++ [c]) fr ty ckf = mkst D (push c fr) ty ckf.
+Proof. intros. unfold mkst, push. cbn [fst snd]. rewrite <- app_assoc. reflexivity. Qed.
+
+Lemma top_push : forall c fr, top (push c fr) = c_tags c.
+Proof. reflexivity. Qed.
+
+Lemma set_top_push : forall t ms tg fr b, set_top (push (mkCtx t ms tg) fr) b = push (mkCtx t ms b) fr.
+Proof. reflexivity. Qed.
+
+(* ---------- closing dangling contexts ---------- *)
+
+Fixpoint collapse_p (p : option (str * container)) (D : list ctx) : result (option (str * container)) :=
+  match D with
+  | [] => Ok p
+  | c :: D' => do tg <- add_pending p (c_tags c); collapse_p (Some (c_tag c, tg)) D'
+  end.
+
+Definition collapse (p : option (str * container)) (D : list ctx) (k : container) : result container :=
+  do p' <- collapse_p p D; add_pending p' k.
+
+Definition nonmem (t : str) (D : list ctx) : Prop := Forall (fun c => mem_str t (c_members c) = false) D.
+
+Lemma pop_while_collapse : forall tag D fr p b,
+  nonmem tag D -> accepts fr tag -> collapse p D (top fr) = Ok b ->
+  pop_while tag (D ++ fst fr) p (snd fr) = Ok (set_top fr b).
+Proof.
+  intros tag D. induction D as [|c D IH]; intros [K root] p b Hn Ha Hc; cbn [app fst snd].
+  - unfold collapse in Hc. cbn [collapse_p bind] in Hc. unfold top, set_top, accepts in *. cbn [fst snd] in *.
+    destruct K as [|k rest]; cbn [pop_while].
+    + rewrite Hc. reflexivity.
+    + rewrite Hc. cbn [bind c_members c_tag c_tags]. rewrite Ha. reflexivity.
+  - inversion Hn as [|? ? Hc1 Hn']; subst.
+    unfold collapse in Hc. cbn [collapse_p] in Hc. cbn [pop_while].
+    destruct (add_pending p (c_tags c)) as [tg|e]; [|discriminate]. cbn [bind] in *.
+    cbn [c_members c_tag c_tags]. rewrite Hc1.
+    apply (IH (K, root)); assumption.
+Qed.
+
+Lemma collapse_app : forall D1 D2 p k,
+  collapse p (D1 ++ D2) k = do p' <- collapse_p p D1; collapse p' D2 k.
+Proof.
+  induction D1 as [|c D1 IH]; intros D2 p k; [reflexivity|].
+  unfold collapse in *. cbn [app collapse_p].
+  destruct (add_pending p (c_tags c)); [|reflexivity]. cbn [bind]. apply IH.
+Qed.
+
+Lemma collapse_nil : forall k, collapse None [] k = Ok k.
+Proof. reflexivity. Qed.
+
+(* ---------- one field: bookkeeping part and structural part ---------- *)
+
+Definition pre (ck_expect : N) (st : dst) (tag val : str) : result dst :=
+  if str_eqb tag T10 then
+    match py_int val with
+    | None => Exc EValue
+    | Some z => Ok (mkD (d_root st) (d_stack st) (d_type st) (Z.eqb (Z.of_N ck_expect) z))
+    end
+  else if str_eqb tag T35 then Ok (mkD (d_root st) (d_stack st) val (d_ck st))
+  else Ok st.
+
+Definition post (G : group_table) (tag val : str) (st : dst) : fstep :=
+  match lookup_group G tag with
+  | Some members =>
+      match (match d_stack st with
+             | [] => Ok ([], d_root st)
+             | _ => pop_while tag (d_stack st) None (d_root st)
+             end) with
+      | Exc e => FExc e
+      | Ok (stack, root) => FCont (mkD root (mkCtx tag members [] :: stack) (d_type st) (d_ck st))
+      end
+  | None =>
+      match d_stack st with
+      | [] =>
+          if ct_mem tag (d_root st) then
+            match py_int tag with
+            | None => FExc EFIXMessage
+            | Some _ => FCont (mkD (ct_put tag VErr (d_root st)) [] (d_type st) (d_ck st))
+            end
+          else
+            match ct_set tag val (d_root st) with
+            | Exc e => FExc e
+            | Ok r => FCont (mkD r [] (d_type st) (d_ck st))
+            end
+      | _ =>
+          match pop_while tag (d_stack st) None (d_root st) with
+          | Exc e => FExc e
+          | Ok ([], root) =>
+              if ct_mem tag root then FExc EAttribute
+              else match ct_set tag val root with
+                   | Exc e => FExc e
+                   | Ok r => FCont (mkD r [] (d_type st) (d_ck st))
+                   end
+          | Ok (c :: rest, root) =>
+              if ct_mem tag (c_tags c) then
+                let fresh := mkCtx (c_tag c) (c_members c) [] in
+                match (match rest with
+                       | [] => do r <- ct_add_group (c_tag c) (c_tags c) root; Ok ([], r)
+                       | p :: rest' =>
+                           do tg <- ct_add_group (c_tag c) (c_tags c) (c_tags p);
+                           Ok (mkCtx (c_tag p) (c_members p) tg :: rest', root)
+                       end) with
+                | Exc e => FExc e
+                | Ok (rest2, root2) =>
+                    match ct_set tag val [] with
+                    | Exc e => FExc e
+                    | Ok tg => FCont (mkD root2 (mkCtx (c_tag c) (c_members c) tg :: rest2) (d_type st) (d_ck st))
+                    end
+                end
+              else
+                match ct_set tag val (c_tags c) with
+                | Exc e => FExc e
+                | Ok tg => FCont (mkD root (mkCtx (c_tag c) (c_members c) tg :: rest) (d_type st) (d_ck st))
+                end
+          end
+      end
+  end.
+
+Lemma field_step_eq : forall G ck st m,
+  field_step G ck st m =
+  match split1 61 m with
+  | (_, None) => FReturnBad
+  | (tag, Some val) =>
+      match pre ck st tag val with
+      | Exc e => FExc e
+      | Ok st => post G tag val st
+      end
+  end.
+Proof. reflexivity. Qed.
+
+Lemma field_step_field : forall G ck st tag val, cfree 61 tag ->
+  field_step G ck st (field tag val) =
+  match pre ck st tag val with Exc e => FExc e | Ok st => post G tag val st end.
+Proof. intros. rewrite field_step_eq. unfold field. rewrite split1_field by assumption. reflexivity. Qed.
+
+Lemma pre_other : forall ck st tag val, str_eqb tag T10 = false -> str_eqb tag T35 = false ->
+  pre ck st tag val = Ok st.
+Proof. intros ck st tag val H1 H2. unfold pre. rewrite H1, H2. reflexivity. Qed.
+
+Lemma app_nil_both : forall {A} (a b : list A), a ++ b = [] -> a = [] /\ b = [].
+Proof. intros A a b H. destruct a; [split; [reflexivity | assumption] | discriminate]. Qed.
+
+(* a plain tag: dangling contexts are closed, the field is appended to the current container *)
+Lemma post_plain : forall G tag val D fr ty ckf b,
+  lookup_group G tag = None -> has_int tag = true ->
+  nonmem tag D -> accepts fr tag -> collapse None D (top fr) = Ok b -> ct_get tag b = None ->
+  post G tag val (mkst D fr ty ckf) = FCont (mkst [] (set_top fr (b ++ [(tag, VStr val)])) ty ckf).
+Proof.
+  intros G tag val D fr ty ckf b Hl Hi Hn Ha Hc Hg.
+  unfold post. rewrite Hl. unfold mkst. cbn [d_stack d_root d_type d_ck].
+  destruct (D ++ fst fr) as [|c0 l0] eqn:E.
+  - apply app_nil_both in E as [ED EK]. subst D. destruct fr as [K root]. cbn [fst snd] in *. subst K.
+    cbn in Hc. injection Hc as Hc. subst b.
+    rewrite (ct_mem_false _ _ Hg), (ct_set_new _ val _ Hi Hg). reflexivity.
+  - rewrite <- E. rewrite (pop_while_collapse tag D fr None b Hn Ha Hc).
+    destruct fr as [[|k rest] root]; unfold set_top; cbn [fst snd].
+    + rewrite (ct_mem_false _ _ Hg), (ct_set_new _ val _ Hi Hg). reflexivity.
+    + cbn [c_tags c_tag c_members]. rewrite (ct_mem_false _ _ Hg), (ct_set_new _ val _ Hi Hg). reflexivity.
+Qed.
+
+(* a group tag: dangling contexts are closed, a fresh context is pushed *)
+Lemma post_group : forall G tag val ms D fr ty ckf b,
+  lookup_group G tag = Some ms ->
+  nonmem tag D -> accepts fr tag -> collapse None D (top fr) = Ok b ->
+  post G tag val (mkst D fr ty ckf) = FCont (mkst [] (push (mkCtx tag ms []) (set_top fr b)) ty ckf).
+Proof.
+  intros G tag val ms D fr ty ckf b Hl Hn Ha Hc.
+  unfold post. rewrite Hl. unfold mkst. cbn [d_stack d_root d_type d_ck].
+  destruct (D ++ fst fr) as [|c0 l0] eqn:E.
+  - apply app_nil_both in E as [ED EK]. subst D. destruct fr as [K root]. cbn [fst snd] in *. subst K.
+    cbn in Hc. injection Hc as Hc. subst b. reflexivity.
+  - rewrite <- E. rewrite (pop_while_collapse tag D fr None b Hn Ha Hc).
+    destruct (set_top fr b) as [K' root']. reflexivity.
+Qed.
+
+(* a plain tag the current item already has: the item is closed and the next one started *)
+Lemma post_next_item : forall G tag val D g ms cur fr ty ckf it done pb,
+  lookup_group G tag = None -> has_int tag = true ->
+  nonmem tag D -> mem_str tag ms = true -> collapse None D cur = Ok it ->
+  mem_str tag (map fst it) = true ->
+  top fr = pb ++ pend g done -> ct_get g pb = None ->
+  post G tag val (mkst D (push (mkCtx g ms cur) fr) ty ckf) =
+  FCont (mkst [] (push (mkCtx g ms [(tag, VStr val)]) (set_top fr (pb ++ pend g (done ++ [it])))) ty ckf).
+Proof.
+  intros G tag val D g ms cur fr ty ckf it done pb Hl Hi Hn Hm Hc Hin Htop Hg.
+  unfold post. rewrite Hl. unfold mkst. cbn [d_stack d_root d_type d_ck].
+  assert (E : exists c0 l0, D ++ fst (push (mkCtx g ms cur) fr) = c0 :: l0).
+  { unfold push. cbn [fst]. destruct D; cbn; eauto. }
+  destruct E as [c0 [l0 E]]. rewrite E, <- E.
+  rewrite (pop_while_collapse tag D (push (mkCtx g ms cur) fr) None it Hn Hm Hc).
+  rewrite set_top_push. unfold push. cbn [fst snd c_tags c_tag c_members].
+  unfold ct_mem. destruct (ct_get_some _ _ Hin) as [v Hv]. rewrite Hv.
+  assert (Hs : ct_set tag val [] = Ok [(tag, VStr val)]) by (apply (ct_set_new tag val [] Hi); reflexivity).
+  destruct fr as [[|p rest'] root]; unfold top, set_top in *; cbn [fst snd] in *.
+  - rewrite Htop, (ct_add_group_pend g it pb done Hg). cbn [bind]. rewrite Hs. reflexivity.
+  - rewrite Htop, (ct_add_group_pend g it pb done Hg). cbn [bind]. rewrite Hs. reflexivity.
+Qed.
+
+(* ------------------------------------------------------------------ the printer as a total function *)
+
+Lemma value_ind2 : forall (P : value -> Prop),
+  (forall s, P (VStr s)) -> P VErr ->
+  (forall items, Forall (Forall (fun tv => P (snd tv))) items -> P (VGrp items)) ->
+  forall v, P v.
+Proof.
+  intros P HS HE HG. fix IH 1. intros [s|items|]; [apply HS | | apply HE].
+  apply HG. revert items. fix IHitems 1. intros [|it items]; constructor; [|apply IHitems].
+  revert it. fix IHit 1. intros [|[t v] it]; constructor; [apply IH | apply IHit].
+Qed.
+
+Fixpoint vfields (t : str) (v : value) {struct v} : list str :=
+  match v with
+  | VStr s => [field t s]
+  | VErr => []
+  | VGrp items =>
+      field t (n_to_dec (N.of_nat (length items)))
+      :: concat (map (fun it => concat (map (fun tv => vfields (fst tv) (snd tv)) it)) items)
+  end.
+
+Definition cfields (c : container) : list str := concat (map (fun tv => vfields (fst tv) (snd tv)) c).
+
+Lemma vfields_grp : forall t items,
+  vfields t (VGrp items) = field t (n_to_dec (N.of_nat (length items))) :: concat (map cfields items).
+Proof. reflexivity. Qed.
+
+Lemma cfields_cons : forall t v c, cfields ((t, v) :: c) = vfields t v ++ cfields c.
+Proof. reflexivity. Qed.
+
+Lemma cfields_app : forall a b, cfields (a ++ b) = cfields a ++ cfields b.
+Proof. intros. unfold cfields. rewrite map_app, concat_app. reflexivity. Qed.
+
+(* the monadic printer agrees with the total one whenever it succeeds *)
+Lemma render_value_fields : forall v t fs, render_value t v = Ok fs -> fs = vfields t v.
+Proof.
+  induction v as [s| |items IH] using value_ind2; intros t fs H.
+  - cbn [render_value] in H. injection H as H. subst fs. reflexivity.
+  - discriminate.
+  - rewrite vfields_grp. cbn [render_value] in H.
+    set (item_go := fix item_go (it : list (str * value)) : result (list str) :=
+           match it with
+           | [] => Ok []
+           | (t', v') :: it' => do a <- render_value t' v'; do b <- item_go it'; Ok (a ++ b)
+           end) in H.
+    set (items_go := fix items_go (items : list (list (str * value))) : result (list str) :=
+           match items with
+           | [] => Ok []
+           | it :: rest => do a <- item_go it; do b <- items_go rest; Ok (a ++ b)
+           end) in H.
+    assert (Hit : forall it, Forall (fun tv => forall t fs, render_value t (snd tv) = Ok fs -> fs = vfields t (snd tv)) it ->
+                  forall r, item_go it = Ok r -> r = cfields it).
+    { induction it as [|[t' v'] it IHit]; intros HF r Hr.
+      - change (@Ok (list str) [] = Ok r) in Hr. injection Hr as Hr. subst r. reflexivity.
+      - inversion HF as [|? ? H1 H2]; subst.
+        change ((do a <- render_value t' v'; do b <- item_go it; Ok (a ++ b)) = Ok r) in Hr.
+        destruct (render_value t' v') as [a|] eqn:Ea; [|discriminate]. cbn [bind] in Hr.
+        destruct (item_go it) as [b|] eqn:Eb; [|discriminate]. cbn [bind] in Hr.
+        injection Hr as Hr. subst r. rewrite cfields_cons.
+        cbn [snd] in H1. rewrite (H1 t' a Ea), (IHit H2 b eq_refl). reflexivity. }
+    assert (Hits : forall its, Forall (Forall (fun tv => forall t fs, render_value t (snd tv) = Ok fs -> fs = vfields t (snd tv))) its ->
+                   forall r, items_go its = Ok r -> r = concat (map cfields its)).
+    { induction its as [|it its IHits]; intros HF r Hr.
+      - change (@Ok (list str) [] = Ok r) in Hr. injection Hr as Hr. subst r. reflexivity.
+      - inversion HF as [|? ? H1 H2]; subst.
+        change ((do a <- item_go it; do b <- items_go its; Ok (a ++ b)) = Ok r) in Hr.
+        destruct (item_go it) as [a|] eqn:Ea; [|discriminate]. cbn [bind] in Hr.
+        destruct (items_go its) as [b|] eqn:Eb; [|discriminate]. cbn [bind] in Hr.
+        injection Hr as Hr. subst r. cbn [map concat].
+        rewrite (Hit it H1 a Ea), (IHits H2 b eq_refl). reflexivity. }
+    destruct (items_go items) as [r|] eqn:Er; [|discriminate]. cbn [bind] in H.
+    injection H as H. subst fs. rewrite (Hits items IH r Er). reflexivity.
+Qed.
+
+Lemma render_body_fields : forall c fs, render_body c = Ok fs ->
+  fs = cfields (filter (fun tv => negb (mem_str (fst tv) skip_tags)) c).
+Proof.
+  induction c as [|[t v] c IH]; intros fs H.
+  - cbn [render_body] in H. injection H as H. subst fs. reflexivity.
+  - cbn [render_body] in H. cbn [filter fst].
+    destruct (mem_str t skip_tags); cbn [negb].
+    + apply IH. assumption.
+    + destruct (render_value t v) as [a|] eqn:Ea; [|discriminate]. cbn [bind] in H.
+      destruct (render_body c) as [b|] eqn:Eb; [|discriminate]. cbn [bind] in H.
+      injection H as H. subst fs. rewrite cfields_cons, (render_value_fields _ _ _ Ea), (IH b eq_refl). reflexivity.
+Qed.
+
+(* ------------------------------------------------------------------ reading the boolean predicates *)
+
+Lemma soh_free_spec : forall s, soh_free s = true <-> cfree 1 s.
+Proof. intro s. exact (cfreeb_spec 1 s). Qed.
+
+Lemma eq_free_spec : forall s, eq_free s = true <-> cfree 61 s.
+Proof. intro s. exact (cfreeb_spec 61 s). Qed.
+
+Lemma tag_ok_spec : forall t, tag_ok t = true -> cfree 1 t /\ cfree 61 t /\ has_int t = true.
+Proof.
+  intros t H. unfold tag_ok in H. apply andb_true_iff in H as [H H3]. apply andb_true_iff in H as [H1 H2].
+  split; [apply soh_free_spec; assumption | split; [apply eq_free_spec; assumption | assumption]].
+Qed.
+
+Lemma is_key_false : forall G t, is_key G t = false <-> lookup_group G t = None.
+Proof. intros G t. unfold is_key. destruct (lookup_group G t); split; congruence. Qed.
+
+Lemma wf_value_str : forall G t s, wf_value G t (VStr s) = true -> lookup_group G t = None /\ cfree 1 s.
+Proof.
+  intros G t s H. cbn [wf_value] in H. apply andb_true_iff in H as [H1 H2].
+  split; [apply is_key_false; destruct (is_key G t); [discriminate | reflexivity] | apply soh_free_spec; assumption].
+Qed.
+
+Definition wf_entry (G : group_table) (ms : list str) (tv : str * value) : Prop :=
+  tag_ok (fst tv) = true /\ mem_str (fst tv) ms = true /\ wf_value G (fst tv) (snd tv) = true.
+
+Lemma wf_value_grp : forall G t items, wf_value G t (VGrp items) = true ->
+  exists ms, lookup_group G t = Some ms /\ items <> []
+    /\ Forall (fun it => Forall (wf_entry G ms) it /\ item_shape G it = true) items
+    /\ items_chain_ok G items = true.
+Proof.
+  intros G t items H. cbn [wf_value] in H.
+  destruct (lookup_group G t) as [ms|]; [|discriminate]. exists ms. split; [reflexivity|].
+  apply andb_true_iff in H as [H Hchain]. apply andb_true_iff in H as [H Hne].
+  split; [destruct items; [discriminate | discriminate]|]. split; [|assumption].
+  clear Hne Hchain. induction items as [|it items IH]; [constructor|].
+  apply andb_true_iff in H as [H Hrest]. apply andb_true_iff in H as [Hent Hshape].
+  constructor; [|apply IH; assumption]. split; [|assumption].
+  clear Hshape Hrest IH. induction it as [|[t' v'] it IHit]; [constructor|].
+  apply andb_true_iff in Hent as [Hent Hrest]. apply andb_true_iff in Hent as [Hent Hwf].
+  apply andb_true_iff in Hent as [Htag Hmem].
+  constructor; [split; [|split]; assumption | apply IHit; assumption].
+Qed.
+
+Lemma last_entry_cons : forall {A} (x : A) l,
+  last_entry (x :: l) = match l with [] => Some x | _ :: _ => last_entry l end.
+Proof. intros. destruct l; reflexivity. Qed.
+
+Lemma open_members_grp : forall G t items,
+  open_members G t (VGrp items) =
+  match last_entry items with Some it => last_open G it | None => [] end
+  ++ [match lookup_group G t with Some ms => ms | None => [] end].
+Proof.
+  intros G t items. cbn [open_members]. f_equal.
+  induction items as [|it items IH]; [reflexivity|].
+  rewrite last_entry_cons. destruct items as [|it2 items]; [|exact IH].
+  clear IH. unfold last_open. induction it as [|[t' v'] it IHit]; [reflexivity|].
+  rewrite last_entry_cons. destruct it as [|e it]; [reflexivity | exact IHit].
+Qed.
+
+Lemma open_members_str : forall G t s, open_members G t (VStr s) = [].
+Proof. reflexivity. Qed.
+
+Lemma last_open_cons : forall G t v c,
+  last_open G ((t, v) :: c) = match c with [] => open_members G t v | _ :: _ => last_open G c end.
+Proof. intros. unfold last_open. rewrite last_entry_cons. destruct c; reflexivity. Qed.
+
+Lemma Forall_concat : forall {A} (P : A -> Prop) ls, Forall (Forall P) ls -> Forall P (concat ls).
+Proof.
+  induction ls as [|l ls IH]; intro H; [constructor|]. inversion H; subst. cbn. apply Forall_app. split; [assumption | apply IH; assumption].
+Qed.
+
+Lemma field_soh_free : forall t v, cfree 1 t -> cfree 1 v -> cfree 1 (field t v).
+Proof.
+  intros t v Ht Hv. unfold field. apply cfree_app. split; [assumption|]. apply cfree_cons. split; [discriminate | assumption].
+Qed.
+
+(* every field the encoder renders for a well-formed value is SOH-free *)
+Lemma vfields_soh_free : forall G v t, cfree 1 t -> wf_value G t v = true -> Forall (cfree 1) (vfields t v).
+Proof.
+  intros G v. induction v as [s| |items IH] using value_ind2; intros t Ht Hwf.
+  - apply wf_value_str in Hwf as [_ Hs]. constructor; [apply field_soh_free; assumption | constructor].
+  - discriminate.
+  - rewrite vfields_grp. destruct (wf_value_grp _ _ _ Hwf) as [ms [_ [_ [Hitems _]]]].
+    constructor; [apply field_soh_free; [assumption | apply n_to_dec_cfree; reflexivity]|].
+    apply Forall_concat. apply Forall_map.
+    clear Hwf. induction items as [|it items IHitems]; [constructor|].
+    inversion IH as [|? ? IHit IHrest]; subst. inversion Hitems as [|? ? [Hent _] Hrest]; subst.
+    constructor; [|apply IHitems; assumption].
+    unfold cfields. apply Forall_concat. apply Forall_map.
+    clear - IHit Hent. induction it as [|[t' v'] it IHi]; [constructor|].
+    inversion IHit; subst. inversion Hent as [|? ? [Htag [_ Hw]] ?]; subst.
+    constructor; [|apply IHi; assumption]. cbn [fst snd] in *.
+    apply H1; [apply (tag_ok_spec _ Htag) | assumption].
+Qed.
+
+(* ------------------------------------------------------------------ Part D: the field loop on values *)
+
+Lemma fields_loop_app : forall G ck a b st,
+  fields_loop G ck st (a ++ b) =
+  match fields_loop G ck st a with FCont st' => fields_loop G ck st' b | other => other end.
+Proof.
+  intros G ck a. induction a as [|f a IH]; intros b st; [reflexivity|].
+  cbn [app fields_loop]. destruct (field_step G ck st f); try reflexivity. apply IH.
+Qed.
+
+Lemma fields_loop_one : forall G ck st f, fields_loop G ck st [f] = field_step G ck st f.
+Proof. intros. cbn [fields_loop]. destruct (field_step G ck st f); reflexivity. Qed.
+
+Lemma fields_loop_cons : forall G ck st f fs,
+  fields_loop G ck st (f :: fs) =
+  match field_step G ck st f with FCont st' => fields_loop G ck st' fs | other => other end.
+Proof. reflexivity. Qed.
+
+Lemma free_of_nonmem : forall t D, free_of t (map c_members D) = true -> nonmem t D.
+Proof.
+  intros t D. induction D as [|c D IH]; intro H; [constructor|].
+  cbn [map free_of forallb] in H. apply andb_true_iff in H as [H1 H2].
+  constructor; [destruct (mem_str t (c_members c)); [discriminate | reflexivity] | apply IH; assumption].
+Qed.
+
+Lemma last_entry_snoc : forall {A} (l : list A) x, last_entry (l ++ [x]) = Some x.
+Proof.
+  induction l as [|y l IH]; intro x; [reflexivity|].
+  cbn [app]. rewrite last_entry_cons. destruct (l ++ [x]) eqn:E; [destruct l; discriminate|]. rewrite <- E. apply IH.
+Qed.
+
+Lemma last_entry_none : forall {A} (l : list A), last_entry l = None -> l = [].
+Proof.
+  induction l as [|x l IH]; intro H; [reflexivity|].
+  rewrite last_entry_cons in H. destruct l; [discriminate|]. specialize (IH H). discriminate.
+Qed.
+
+Lemma str_eqb_of_mem : forall t u ms, mem_str t ms = true -> mem_str u ms = false -> str_eqb t u = false.
+Proof.
+  intros t u ms H1 H2. apply str_eqb_neq. intro E. subst. congruence.
+Qed.
+
+Section Loop.
+Variable G : group_table.
+Hypothesis HG : wf_table G = true.
+
+Lemma lookup_group_in : forall g ms, lookup_group G g = Some ms -> exists e, In e G /\ snd e = ms.
+Proof.
+  intros g ms H. unfold lookup_group in H.
+  destruct (find (fun e => str_eqb (fst e) g) G) as [e|] eqn:E; [|discriminate].
+  apply find_some in E as [I _]. cbn in H. exists e. split; [assumption | congruence].
+Qed.
+
+Lemma members_not_special : forall g ms, lookup_group G g = Some ms ->
+  mem_str T10 ms = false /\ mem_str T35 ms = false.
+Proof.
+  intros g ms H. destruct (lookup_group_in g ms H) as [e [I E]].
+  unfold wf_table in HG. apply andb_true_iff in HG as [_ H2].
+  rewrite forallb_forall in H2. specialize (H2 e I). rewrite E in H2.
+  apply andb_true_iff in H2 as [A B].
+  split; [destruct (mem_str T10 ms) | destruct (mem_str T35 ms)]; try reflexivity; discriminate.
+Qed.
+
+Lemma framing_not_key : forall t, In t (hdr_tags ++ skip_tags) -> lookup_group G t = None.
+Proof.
+  intros t I. unfold wf_table in HG. apply andb_true_iff in HG as [H1 _].
+  rewrite forallb_forall in H1. specialize (H1 t I). apply is_key_false.
+  destruct (is_key G t); [discriminate | reflexivity].
+Qed.
+
+Definition tag_good (fr : frame) (t : str) : Prop :=
+  tag_ok t = true /\ str_eqb t T10 = false /\ str_eqb t T35 = false /\ accepts fr t.
+
+Lemma tag_good_set_top : forall fr b t, tag_good fr t -> tag_good (set_top fr b) t.
+Proof. intros fr b t [A [B [C D]]]. repeat split; try assumption. apply accepts_set_top. assumption. Qed.
+
+(* what the loop does with the fields of one tag *)
+Definition value_spec (t : str) (v : value) : Prop :=
+  forall ck D fr ty ckf b,
+    wf_value G t v = true -> tag_good fr t -> nonmem t D ->
+    collapse None D (top fr) = Ok b -> ct_get t b = None ->
+    exists D' b2,
+      fields_loop G ck (mkst D fr ty ckf) (vfields t v) = FCont (mkst D' (set_top fr b2) ty ckf)
+      /\ collapse None D' b2 = Ok (b ++ [(t, v)])
+      /\ map c_members D' = open_members G t v.
+
+Lemma step_plain : forall ck t s D fr ty ckf b,
+  lookup_group G t = None -> tag_good fr t -> nonmem t D ->
+  collapse None D (top fr) = Ok b -> ct_get t b = None ->
+  field_step G ck (mkst D fr ty ckf) (field t s) = FCont (mkst [] (set_top fr (b ++ [(t, VStr s)])) ty ckf).
+Proof.
+  intros ck t s D fr ty ckf b Hl [Htag [H10 [H35 Hacc]]] Hn Hc Hg.
+  destruct (tag_ok_spec _ Htag) as [_ [Heq Hint]].
+  rewrite (field_step_field G ck _ t s Heq), (pre_other ck _ t s H10 H35).
+  apply post_plain; assumption.
+Qed.
+
+Lemma entries_loop : forall c, Forall (fun tv => value_spec (fst tv) (snd tv)) c ->
+  forall ck D fr ty ckf b,
+    Forall (fun tv => wf_value G (fst tv) (snd tv) = true /\ tag_good fr (fst tv)) c ->
+    nodupb (map fst c) = true -> Forall (fun tv => ct_get (fst tv) b = None) c -> followers_ok G c = true ->
+    match c with tv :: _ => nonmem (fst tv) D | [] => True end ->
+    collapse None D (top fr) = Ok b ->
+    exists D' b2,
+      fields_loop G ck (mkst D fr ty ckf) (cfields c) = FCont (mkst D' (set_top fr b2) ty ckf)
+      /\ collapse None D' b2 = Ok (b ++ c)
+      /\ map c_members D' = match last_entry c with
+                            | Some tv => open_members G (fst tv) (snd tv)
+                            | None => map c_members D
+                            end.
+Proof.
+  induction c as [|[t v] c IH]; intros HS ck D fr ty ckf b Hwf Hnd Hfresh Hfol Hhead Hcol.
+  - exists D, (top fr). rewrite set_top_top, app_nil_r.
+    split; [reflexivity|]. split; [assumption | reflexivity].
+  - inversion HS as [|? ? HSv HSc]; subst. inversion Hwf as [|? ? [Hwfv Htg] Hwfc]; subst.
+    inversion Hfresh as [|? ? Hfv Hfc]; subst. cbn [fst snd map] in *.
+    cbn [nodupb] in Hnd. apply andb_true_iff in Hnd as [Hnot Hnd'].
+    destruct (HSv ck D fr ty ckf b Hwfv Htg Hhead Hcol Hfv) as [D1 [b1 [L1 [C1 M1]]]].
+    assert (Hfol' : followers_ok G c = true /\ match c with tv :: _ => nonmem (fst tv) D1 | [] => True end).
+    { destruct c as [|[t2 v2] c2]; [split; [reflexivity | exact I]|].
+      cbn [followers_ok] in Hfol. apply andb_true_iff in Hfol as [F1 F2].
+      split; [assumption|]. cbn [fst]. apply free_of_nonmem. rewrite M1. assumption. }
+    destruct Hfol' as [Hfol' Hhead'].
+    assert (Hfresh' : Forall (fun tv => ct_get (fst tv) (b ++ [(t, v)]) = None) c).
+    { rewrite Forall_forall in *. intros [t2 v2] I2. cbn [fst]. rewrite ct_get_app.
+      specialize (Hfc _ I2). cbn [fst] in Hfc. rewrite Hfc. cbn [ct_get].
+      assert (Ht2 : In t2 (map fst c)) by (apply in_map_iff; exists (t2, v2); split; [reflexivity | assumption]).
+      destruct (str_eqb t t2) eqn:E; [|reflexivity].
+      apply str_eqb_eq in E. subst t2. apply mem_str_In in Ht2. destruct (mem_str t (map fst c)); discriminate. }
+    assert (Hwf' : Forall (fun tv => wf_value G (fst tv) (snd tv) = true /\ tag_good (set_top fr b1) (fst tv)) c).
+    { eapply Forall_impl; [|exact Hwfc]. intros tv [A B]. split; [assumption | apply tag_good_set_top; assumption]. }
+    assert (Hcol' : collapse None D1 (top (set_top fr b1)) = Ok (b ++ [(t, v)])) by (rewrite top_set_top; assumption).
+    destruct (IH HSc ck D1 (set_top fr b1) ty ckf (b ++ [(t, v)]) Hwf' Hnd' Hfresh' Hfol' Hhead' Hcol') as [D2 [b2 [L2 [C2 M2]]]].
+    exists D2, b2. rewrite set_top_set_top in L2.
+    split; [|split].
+    + rewrite cfields_cons, fields_loop_app, L1. exact L2.
+    + rewrite C2, <- app_assoc. reflexivity.
+    + rewrite M2, last_entry_cons. destruct c as [|p c]; [exact M1|].
+      destruct (last_entry (p :: c)) eqn:E; [reflexivity|]. apply last_entry_none in E. discriminate.
+Qed.
+
+(* entries of an item of group t (members ms): side conditions from the table *)
+Lemma item_entries_good : forall t ms it fr cur,
+  lookup_group G t = Some ms -> Forall (wf_entry G ms) it ->
+  Forall (fun tv => wf_value G (fst tv) (snd tv) = true /\ tag_good (push (mkCtx t ms cur) fr) (fst tv)) it.
+Proof.
+  intros t ms it fr cur Hl H. destruct (members_not_special t ms Hl) as [N10 N35].
+  eapply Forall_impl; [|exact H]. intros tv [A [B C]]. split; [assumption|].
+  repeat split; [assumption | | | exact B].
+  - apply (str_eqb_of_mem _ _ ms B N10).
+  - apply (str_eqb_of_mem _ _ ms B N35).
+Qed.
+
+Lemma item_shape_spec : forall it, item_shape G it = true ->
+  it <> [] /\ nodupb (map fst it) = true /\ followers_ok G it = true.
+Proof.
+  intros it H. unfold item_shape in H. apply andb_true_iff in H as [H H3]. apply andb_true_iff in H as [H1 H2].
+  split; [destruct it; [discriminate | discriminate] | split; assumption].
+Qed.
+
+Lemma items_loop : forall t ms its, lookup_group G t = Some ms ->
+  Forall (Forall (fun tv => value_spec (fst tv) (snd tv))) its ->
+  forall ck D cur prev done fr b ty ckf,
+    Forall (fun it => Forall (wf_entry G ms) it /\ item_shape G it = true) its ->
+    items_chain_ok G (prev :: its) = true ->
+    collapse None D cur = Ok prev -> map c_members D = last_open G prev ->
+    ct_get t b = None ->
+    exists D' cur' done' prev',
+      fields_loop G ck (mkst D (push (mkCtx t ms cur) (set_top fr (b ++ pend t done))) ty ckf) (concat (map cfields its))
+      = FCont (mkst D' (push (mkCtx t ms cur') (set_top fr (b ++ pend t done'))) ty ckf)
+      /\ collapse None D' cur' = Ok prev' /\ done' ++ [prev'] = done ++ prev :: its
+      /\ map c_members D' = last_open G prev'.
+Proof.
+  intros t ms its Hl. induction its as [|it1 its IH]; intros HS ck D cur prev done fr b ty ckf Hwf Hchain Hcol Hmem Hg.
+  - exists D, cur, done, prev. repeat split; assumption.
+  - inversion HS as [|? ? HS1 HSrest]; subst. inversion Hwf as [|? ? [Hent1 Hshape1] Hwfrest]; subst.
+    cbn [items_chain_ok] in Hchain. apply andb_true_iff in Hchain as [Hhead Hchain'].
+    unfold item_head_ok in Hhead. destruct it1 as [|[t2 v2] it1']; [discriminate|].
+    destruct v2 as [s2| |]; try discriminate.
+    apply andb_true_iff in Hhead as [Hin Hfree].
+    inversion Hent1 as [|? ? [Htag2 [Hmem2 Hwf2]] Hent1']; subst. cbn [fst snd] in *.
+    apply wf_value_str in Hwf2 as [Hl2 _].
+    destruct (item_shape_spec _ Hshape1) as [_ [Hnd1 Hfol1]].
+    destruct (members_not_special t ms Hl) as [N10 N35].
+    destruct (tag_ok_spec _ Htag2) as [_ [Heq2 Hint2]].
+    (* the head field closes the previous item *)
+    assert (Step1 : field_step G ck (mkst D (push (mkCtx t ms cur) (set_top fr (b ++ pend t done))) ty ckf) (field t2 s2)
+                    = FCont (mkst [] (push (mkCtx t ms [(t2, VStr s2)]) (set_top fr (b ++ pend t (done ++ [prev])))) ty ckf)).
+    { rewrite (field_step_field G ck _ t2 s2 Heq2).
+      rewrite (pre_other ck _ t2 s2 (str_eqb_of_mem _ _ ms Hmem2 N10) (str_eqb_of_mem _ _ ms Hmem2 N35)).
+      rewrite (post_next_item G t2 s2 D t ms cur (set_top fr (b ++ pend t done)) ty ckf prev done b); try assumption.
+      - rewrite set_top_set_top. reflexivity.
+      - apply free_of_nonmem. rewrite Hmem. assumption.
+      - apply top_set_top. }
+    (* the rest of the item *)
+    set (frp := set_top fr (b ++ pend t (done ++ [prev]))).
+    inversion HS1 as [|? ? _ HS1']; subst.
+    assert (Hgood : Forall (fun tv => wf_value G (fst tv) (snd tv) = true /\ tag_good (push (mkCtx t ms [(t2, VStr s2)]) frp) (fst tv)) it1')
+      by (apply item_entries_good; assumption).
+    cbn [map fst nodupb] in Hnd1. apply andb_true_iff in Hnd1 as [Hnot2 Hnd1'].
+    assert (Hfresh : Forall (fun tv => ct_get (fst tv) [(t2, VStr s2)] = None) it1').
+    { rewrite Forall_forall. intros [t3 v3] I3. cbn [fst ct_get].
+      destruct (str_eqb t2 t3) eqn:E; [|reflexivity]. apply str_eqb_eq in E. subst t3.
+      assert (In t2 (map fst it1')) by (apply in_map_iff; exists (t2, v3); split; [reflexivity | assumption]).
+      apply mem_str_In in H. destruct (mem_str t2 (map fst it1')); discriminate. }
+    assert (Hfol1' : followers_ok G it1' = true).
+    { cbn [followers_ok] in Hfol1. destruct it1' as [|[t3 v3] it1'']; [reflexivity|].
+      apply andb_true_iff in Hfol1 as [_ F]. exact F. }
+    assert (Hhd : match it1' with tv :: _ => nonmem (fst tv) [] | [] => True end) by (destruct it1'; [exact I | constructor]).
+    destruct (entries_loop it1' HS1' ck [] (push (mkCtx t ms [(t2, VStr s2)]) frp) ty ckf [(t2, VStr s2)]
+                Hgood Hnd1' Hfresh Hfol1' Hhd (collapse_nil _)) as [D1 [cur1 [L1 [C1 M1]]]].
+    rewrite set_top_push in L1.
+    assert (M1' : map c_members D1 = last_open G ((t2, VStr s2) :: it1')).
+    { rewrite M1, last_open_cons. unfold last_open. destruct it1' as [|e it1'']; [reflexivity|].
+      destruct (last_entry (e :: it1'')) as [[t3 v3]|] eqn:E; [reflexivity|]. apply last_entry_none in E. discriminate. }
+    destruct (IH HSrest ck D1 cur1 ((t2, VStr s2) :: it1') (done ++ [prev]) fr b ty ckf Hwfrest Hchain' C1 M1' Hg)
+      as [D' [cur' [done' [prev' [L2 [C2 [E2 M2]]]]]]].
+    exists D', cur', done', prev'. split; [|split; [assumption | split; [|assumption]]].
+    + cbn [map concat]. rewrite cfields_cons. cbn [vfields].
+      rewrite <- app_assoc. cbn [app]. rewrite fields_loop_cons, Step1. rewrite fields_loop_app.
+      fold frp. rewrite L1. exact L2.
+    + rewrite E2, <- app_assoc. reflexivity.
+Qed.
+
+(* the main induction: any well-formed value *)
+Lemma value_loop : forall v t, value_spec t v.
+Proof.
+  induction v as [s| |items IHv] using value_ind2; intros t ck D fr ty ckf b Hwf Htg Hn Hcol Hg.
+  - apply wf_value_str in Hwf as [Hl _].
+    exists [], (b ++ [(t, VStr s)]). cbn [vfields]. rewrite fields_loop_one.
+    split; [apply step_plain; assumption|]. split; reflexivity.
+  - discriminate.
+  - destruct (wf_value_grp _ _ _ Hwf) as [ms [Hl [Hne [Hitems Hchain]]]].
+    assert (IHv' : Forall (Forall (fun tv => value_spec (fst tv) (snd tv))) items).
+    { eapply Forall_impl; [|exact IHv]. intros it Hit. eapply Forall_impl; [|exact Hit]. intros tv Htv. apply Htv. }
+    clear IHv. rename IHv' into IHv.
+    destruct items as [|it1 its]; [contradiction|]. clear Hne.
+    inversion IHv as [|? ? IH1 IHrest]; subst. inversion Hitems as [|? ? [Hent1 Hshape1] Hwfrest]; subst.
+    destruct Htg as [Htag [H10 [H35 Hacc]]]. destruct (tag_ok_spec _ Htag) as [_ [Heq Hint]].
+    destruct (item_shape_spec _ Hshape1) as [Hne1 [Hnd1 Hfol1]].
+    (* the count field opens the group *)
+    assert (Step0 : field_step G ck (mkst D fr ty ckf) (field t (n_to_dec (N.of_nat (length (it1 :: its)))))
+                    = FCont (mkst [] (push (mkCtx t ms []) (set_top fr b)) ty ckf)).
+    { rewrite (field_step_field G ck _ t _ Heq), (pre_other ck _ t _ H10 H35).
+      apply post_group; assumption. }
+    (* first item *)
+    assert (Hgood : Forall (fun tv => wf_value G (fst tv) (snd tv) = true /\ tag_good (push (mkCtx t ms []) (set_top fr b)) (fst tv)) it1)
+      by (apply item_entries_good; assumption).
+    assert (Hfresh : Forall (fun tv => ct_get (fst tv) [] = None) it1) by (rewrite Forall_forall; intros; reflexivity).
+    assert (Hhd : match it1 with tv :: _ => nonmem (fst tv) [] | [] => True end) by (destruct it1; [exact I | constructor]).
+    destruct (entries_loop it1 IH1 ck [] (push (mkCtx t ms []) (set_top fr b)) ty ckf []
+                Hgood Hnd1 Hfresh Hfol1 Hhd (collapse_nil _)) as [D1 [cur1 [L1 [C1 M1]]]].
+    rewrite set_top_push in L1. cbn [app] in C1.
+    assert (M1' : map c_members D1 = last_open G it1).
+    { rewrite M1. unfold last_open. destruct (last_entry it1) as [[t3 v3]|] eqn:E; [reflexivity|].
+      apply last_entry_none in E. contradiction. }
+    (* remaining items *)
+    assert (Eb : set_top fr b = set_top fr (b ++ pend t [])) by (cbn [pend]; rewrite app_nil_r; reflexivity).
+    rewrite Eb in L1.
+    destruct (items_loop t ms its Hl IHrest ck D1 cur1 it1 [] fr b ty ckf Hwfrest Hchain C1 M1' Hg)
+      as [D' [cur' [done' [prev' [L2 [C2 [E2 M2]]]]]]].
+    exists (D' ++ [mkCtx t ms cur']), (b ++ pend t done').
+    split; [|split].
+    + rewrite vfields_grp. cbn [map concat]. rewrite fields_loop_cons, Step0, fields_loop_app.
+      rewrite Eb, L1, L2. rewrite mkst_push. reflexivity.
+    + rewrite collapse_app. unfold collapse in C2.
+      destruct (collapse_p None D') as [p'|]; [|discriminate]. cbn [bind] in *.
+      unfold collapse. cbn [collapse_p c_tags c_tag bind]. rewrite C2. cbn [bind add_pending].
+      rewrite (ct_add_group_pend t prev' b done' Hg). rewrite E2. reflexivity.
+    + rewrite map_app, M2, open_members_grp, Hl. cbn [map c_members app] in *.
+      rewrite <- E2, last_entry_snoc. reflexivity.
+Qed.
+
+(* ---------- the contexts left open never have CheckSum as a member ---------- *)
+
+Lemma last_entry_in : forall {A} (l : list A) x, last_entry l = Some x -> In x l.
+Proof.
+  induction l as [|y l IH]; intros x H; [discriminate|].
+  rewrite last_entry_cons in H. destruct l; [injection H as H; left; assumption | right; apply IH; assumption].
+Qed.
+
+Lemma open_members_no10 : forall v t ms, In ms (open_members G t v) -> mem_str T10 ms = false.
+Proof.
+  induction v as [s| |items IH] using value_ind2; intros t ms I.
+  - destruct I.
+  - destruct I.
+  - rewrite open_members_grp in I. apply in_app_iff in I as [I|I].
+    + destruct (last_entry items) as [it|] eqn:E; [|destruct I].
+      apply last_entry_in in E. rewrite Forall_forall in IH. specialize (IH it E).
+      unfold last_open in I. destruct (last_entry it) as [[t' v']|] eqn:E'; [|destruct I].
+      apply last_entry_in in E'. rewrite Forall_forall in IH. apply (IH (t', v') E' t' ms I).
+    + destruct I as [I|[]]. subst ms. destruct (lookup_group G t) as [ms|] eqn:El; [|reflexivity].
+      apply (members_not_special t ms El).
+Qed.
+
+Lemma nonmem_no10 : forall D t v, map c_members D = open_members G t v -> nonmem T10 D.
+Proof.
+  intros D t v H. unfold nonmem. rewrite Forall_forall. intros c I.
+  apply (open_members_no10 v t). rewrite <- H. apply in_map. assumption.
+Qed.
+
+(* ---------- the body of a well-formed message, processed at root level ---------- *)
+
+Definition hdr_keys : list str := [T8; T9; T35; T49; T56; T34; T52].
+
+Lemma body_of_not_skip : forall m tv, In tv (body_of m) -> mem_str (fst tv) skip_tags = false.
+Proof.
+  intros m tv I. unfold body_of in I. apply filter_In in I as [_ H].
+  destruct (mem_str (fst tv) skip_tags); [discriminate | reflexivity].
+Qed.
+
+Lemma wf_msg_spec : forall m, wf_msg G m = true ->
+  cfree 1 (msg_type m)
+  /\ Forall (fun tv => tag_ok (fst tv) = true /\ mem_str (fst tv) hdr_tags = false /\ wf_value G (fst tv) (snd tv) = true) (body_of m)
+  /\ nodupb (map fst (body_of m)) = true /\ followers_ok G (body_of m) = true.
+Proof.
+  intros m H. unfold wf_msg in H. apply andb_true_iff in H as [H H4]. apply andb_true_iff in H as [H H3].
+  apply andb_true_iff in H as [H1 H2].
+  split; [apply soh_free_spec; assumption|]. split; [|split; assumption].
+  rewrite forallb_forall in H2. rewrite Forall_forall. intros tv I. specialize (H2 tv I).
+  unfold wf_root_entry in H2. apply andb_true_iff in H2 as [H2 C]. apply andb_true_iff in H2 as [A B].
+  repeat split; try assumption. destruct (mem_str (fst tv) hdr_tags); [discriminate | reflexivity].
+Qed.
+
+Lemma not_hdr_key : forall t, mem_str t hdr_tags = false -> mem_str t skip_tags = false ->
+  mem_str t hdr_keys = false /\ str_eqb t T10 = false /\ str_eqb t T35 = false.
+Proof.
+  intros t H1 H2. apply mem_str_false in H1. apply mem_str_false in H2.
+  split; [|split].
+  - apply mem_str_false. intro I. cbn in I, H1, H2. tauto.
+  - apply str_eqb_neq. intro E. apply H1. subst. cbn. tauto.
+  - apply str_eqb_neq. intro E. apply H1. subst. cbn. tauto.
+Qed.
+
+Lemma body_loop : forall m root ck ty ckf, wf_msg G m = true -> map fst root = hdr_keys ->
+  exists D' b2,
+    fields_loop G ck (mkD root [] ty ckf) (cfields (body_of m)) = FCont (mkst D' ([], b2) ty ckf)
+    /\ collapse None D' b2 = Ok (root ++ body_of m) /\ nonmem T10 D'.
+Proof.
+  intros m root ck ty ckf Hwf Hroot.
+  destruct (wf_msg_spec m Hwf) as [_ [Hent [Hnd Hfol]]].
+  assert (Hgood : Forall (fun tv => wf_value G (fst tv) (snd tv) = true /\ tag_good ([], root) (fst tv)) (body_of m)).
+  { rewrite Forall_forall in *. intros tv I. destruct (Hent tv I) as [A [B C]].
+    destruct (not_hdr_key _ B (body_of_not_skip m tv I)) as [_ [E10 E35]].
+    split; [assumption|]. repeat split; assumption. }
+  assert (Hfresh : Forall (fun tv => ct_get (fst tv) root = None) (body_of m)).
+  { rewrite Forall_forall in *. intros tv I. destruct (Hent tv I) as [A [B C]].
+    destruct (not_hdr_key _ B (body_of_not_skip m tv I)) as [K _].
+    apply ct_get_none. rewrite Hroot. assumption. }
+  assert (HS : Forall (fun tv => value_spec (fst tv) (snd tv)) (body_of m)).
+  { rewrite Forall_forall. intros tv _. apply value_loop. }
+  assert (Hhd : match body_of m with tv :: _ => nonmem (fst tv) [] | [] => True end)
+    by (destruct (body_of m); [exact I | constructor]).
+  destruct (entries_loop (body_of m) HS ck [] ([], root) ty ckf root Hgood Hnd Hfresh Hfol Hhd (collapse_nil _))
+    as [D' [b2 [L [C M]]]].
+  exists D', b2. split; [exact L|]. split; [exact C|].
+  destruct (last_entry (body_of m)) as [[t v]|] eqn:E.
+  - apply (nonmem_no10 D' t v M).
+  - destruct D'; [constructor | discriminate].
+Qed.
+
+(* ---------- header and trailer fields ---------- *)
+
+Lemma step_root : forall ck t s root ty ckf,
+  In t (hdr_tags ++ skip_tags) -> str_eqb t T10 = false -> tag_ok t = true -> ct_get t root = None ->
+  field_step G ck (mkD root [] ty ckf) (field t s)
+  = FCont (mkD (root ++ [(t, VStr s)]) [] (if str_eqb t T35 then s else ty) ckf).
+Proof.
+  intros ck t s root ty ckf Hin H10 Htag Hg.
+  destruct (tag_ok_spec _ Htag) as [_ [Heq Hint]].
+  rewrite (field_step_field G ck _ t s Heq). unfold pre. rewrite H10.
+  destruct (str_eqb t T35); cbn [d_root d_stack d_type d_ck];
+    apply (post_plain G t s [] ([], root) _ ckf root (framing_not_key t Hin) Hint (Forall_nil _) I (collapse_nil _) Hg).
+Qed.
+
+Definition hdr_root (bs blen mt sd tg seq time : str) : container :=
+  [(T8, VStr bs); (T9, VStr blen); (T35, VStr mt); (T49, VStr sd); (T56, VStr tg); (T34, VStr seq); (T52, VStr time)].
+
+Lemma header_loop : forall ck bs blen mt sd tg seq time rest,
+  fields_loop G ck (mkD [] [] UNKNOWN false)
+    (field T8 bs :: field T9 blen :: field T35 mt :: field T49 sd :: field T56 tg :: field T34 seq :: field T52 time :: rest)
+  = fields_loop G ck (mkD (hdr_root bs blen mt sd tg seq time) [] mt false) rest.
+Proof.
+  intros.
+  rewrite fields_loop_cons, (step_root ck T8 bs [] UNKNOWN false) by (cbn; tauto || reflexivity).
+  rewrite fields_loop_cons, (step_root ck T9 blen) by (cbn; tauto || reflexivity).
+  rewrite fields_loop_cons, (step_root ck T35 mt) by (cbn; tauto || reflexivity).
+  rewrite fields_loop_cons, (step_root ck T49 sd) by (cbn; tauto || reflexivity).
+  rewrite fields_loop_cons, (step_root ck T56 tg) by (cbn; tauto || reflexivity).
+  rewrite fields_loop_cons, (step_root ck T34 seq) by (cbn; tauto || reflexivity).
+  rewrite fields_loop_cons, (step_root ck T52 time) by (cbn; tauto || reflexivity).
+  reflexivity.
+Qed.
+
+Lemma trailer_step : forall ck D b2 ty ckf full val z,
+  collapse None D b2 = Ok full -> nonmem T10 D -> ct_get T10 full = None -> py_int val = Some z ->
+  field_step G ck (mkst D ([], b2) ty ckf) (field T10 val)
+  = FCont (mkD (full ++ [(T10, VStr val)]) [] ty (Z.eqb (Z.of_N ck) z)).
+Proof.
+  intros ck D b2 ty ckf full val z Hc Hn Hg Hz.
+  rewrite (field_step_field G ck _ T10 val) by (apply cfreeb_spec; reflexivity).
+  unfold pre. rewrite str_eqb_refl, Hz.
+  change (mkD (d_root (mkst D ([], b2) ty ckf)) (d_stack (mkst D ([], b2) ty ckf)) (d_type (mkst D ([], b2) ty ckf))
+              (Z.eqb (Z.of_N ck) z)) with (mkst D ([], b2) ty (Z.eqb (Z.of_N ck) z)).
+  apply (post_plain G T10 val D ([], b2) ty _ full); try assumption.
+  - apply framing_not_key. cbn. tauto.
+  - reflexivity.
+  - exact I.
+Qed.
+
+(* ------------------------------------------------------------------ frames the decoder accepts *)
+End Loop.
+
+Section Frames.
+Variable G : group_table.
+
+
+(* everything the decoder lemmas (here and in ReaderL) need to know about a frame *)
+Definition frame_ok (bs F : str) (dm : message) : Prop :=
+  exists f1v f2 rest bl st,
+    let fields := field T8 bs :: field T9 f1v :: f2 :: rest in
+    F = flat fields /\ Forall (cfree 1) fields
+    /\ prefixb MARK F = true /\ find_sub MARK (skipn 5 F) = None
+    /\ py_int f1v = Some bl /\ (zlen (field T8 bs) + zlen (field T9 f1v) + 9 + bl = zlen F)%Z
+    /\ fields_loop G ((sum_codes (join SOHs (removelast fields)) + 1) mod 256) (mkD [] [] UNKNOWN false) fields = FCont st
+    /\ d_ck st = true /\ dm = mkMsg (d_type st) (d_root st).
+
+Lemma flat_snoc : forall fs f, flat (fs ++ [f]) = (flat fs ++ f) ++ [1].
+Proof. intros. rewrite flat_app. cbn [flat map concat]. rewrite app_nil_r, app_assoc. reflexivity. Qed.
+
+Lemma flat_last : forall fs, fs <> [] -> exists F', flat fs = F' ++ [1].
+Proof.
+  intros fs H. destruct (exists_last H) as [l [a E]]. subst fs. rewrite flat_snoc. eexists. reflexivity.
+Qed.
+
+Lemma prefixb_length : forall p s, prefixb p s = true -> (length p <= length s)%nat.
+Proof. intros p s H. apply prefixb_spec in H as [r E]. subst. rewrite app_length. lia. Qed.
+
+(* complete-prefix lemma: a good frame followed by nothing, or by bytes that start with a whole
+   frame-start marker, decodes to its message; exactly the frame is consumed *)
+Lemma frame_ok_decode : forall bs F dm P silent,
+  frame_ok bs F dm -> P = [] \/ prefixb MARK P = true ->
+  decode G bs (F ++ P) silent = Ok (Some dm, zlen F, Some F).
+Proof.
+  intros bs F dm P silent [f1v [f2 [rest [bl [st H]]]]] HP. cbv zeta in H.
+  destruct H as [HF [Hsoh [Hmark [Hnom [Hbl [Hlen [Hloop [Hck Hdm]]]]]]]].
+  destruct (flat_last (field T8 bs :: field T9 f1v :: f2 :: rest) ltac:(discriminate)) as [F' EF'].
+  assert (EF : F = F' ++ [1]) by congruence.
+  assert (H5 : (5 <= length F')%nat).
+  { apply prefixb_length in Hmark. rewrite EF, app_length in Hmark. cbn in Hmark. lia. }
+  rewrite EF in Hmark, Hnom. rewrite EF at 1.
+  rewrite (decode_cut G bs F' P silent Hmark H5 Hnom HP).
+  rewrite <- EF. rewrite HF at 3. rewrite (fields_of_flat _ Hsoh).
+  rewrite (decode_fields_ok G bs silent _ 0 F T8 f1v f2 rest bl st); try assumption.
+  - rewrite Hlen, Hdm. reflexivity.
+  - apply cfreeb_spec. reflexivity.
+  - rewrite Hlen, zlen_app. unfold zlen. lia.
+Qed.
+End Frames.
+
+(* ------------------------------------------------------------------ the encoder produces such frames *)
+
+Lemma seq_of_msg_ok : forall c z, seq_of_msg c = Ok z -> True.
+Proof. trivial. Qed.
+
+(* the sequence number written is the allocated one or the message's own *)
+Lemma select_seq_spec : forall m sess raw seq sess',
+  select_seq m sess raw = Ok (seq, sess') ->
+  (allocates m raw = true /\ seq = z_to_dec (next_out sess)
+   /\ sess' = mkSession (sender sess) (target sess) (next_out sess + 1))
+  \/ (allocates m raw = false /\ sess' = sess
+      /\ exists z, seq_of_msg (msg_tags m) = Ok z /\ seq = z_to_dec z).
+Proof.
+  intros m sess raw seq sess' H. unfold select_seq in H. unfold allocates.
+  destruct raw.
+  - right. destruct (seq_of_msg (msg_tags m)) as [z|] eqn:E; [|discriminate]. cbn [bind] in H.
+    injection H as H1 H2. subst. split; [reflexivity|]. split; [reflexivity|]. exists z. split; reflexivity.
+  - destruct (str_eqb (msg_type m) MT_SEQRESET).
+    + right. destruct (ct_mem T34 (msg_tags m)); [|discriminate].
+      destruct (seq_of_msg (msg_tags m)) as [z|] eqn:E; [|discriminate]. cbn [bind] in H.
+      injection H as H1 H2. subst. split; [reflexivity|]. split; [reflexivity|]. exists z. split; reflexivity.
+    + unfold ct_getitem in H. destruct (ct_get T43 (msg_tags m)) as [[s| |]|]; cbn [bind] in H; try discriminate.
+      * destruct (str_eqb s Y).
+        -- right. destruct (ct_mem T34 (msg_tags m)); [|discriminate].
+           destruct (seq_of_msg (msg_tags m)) as [z|] eqn:E; [|discriminate]. cbn [bind] in H.
+           injection H as H1 H2. subst. split; [reflexivity|]. split; [reflexivity|]. exists z. split; reflexivity.
+        -- left. injection H as H1 H2. subst. repeat split.
+      * change (str_eqb Nn Y) with false in H. cbv iota in H.
+        left. injection H as H1 H2. subst. repeat split.
+Qed.
+
+Lemma select_seq_soh_free : forall m sess raw seq sess', select_seq m sess raw = Ok (seq, sess') -> cfree 1 seq.
+Proof.
+  intros m sess raw seq sess' H. destruct (select_seq_spec _ _ _ _ _ H) as [[_ [E _]]|[_ [_ [z [_ E]]]]];
+    subst; apply z_to_dec_soh_free.
+Qed.
+
+Lemma removelast_snoc : forall {A} (l : list A) x, removelast (l ++ [x]) = l.
+Proof. intros. apply removelast_last. Qed.
+
+Lemma flat_length : forall f fs, length (flat (f :: fs)) = (length f + 1 + length (flat fs))%nat.
+Proof. intros. rewrite flat_cons, app_length. cbn [length]. lia. Qed.
+
+Section Enc.
+Variable G : group_table.
+Hypothesis HG : wf_table G = true.
+
+Lemma cfields_soh_free : forall m, wf_msg G m = true -> Forall (cfree 1) (cfields (body_of m)).
+Proof.
+  intros m Hwf. destruct (wf_msg_spec G m Hwf) as [_ [Hent _]].
+  unfold cfields. apply Forall_concat. apply Forall_map.
+  eapply Forall_impl; [|exact Hent]. intros tv [A [_ C]].
+  apply (vfields_soh_free G); [apply (tag_ok_spec _ A) | assumption].
+Qed.
+
+Lemma encode_frame_ok : forall bs m sess time raw frame sess' seq,
+  wf_bs bs = true -> wf_session sess = true -> soh_free time = true -> wf_msg G m = true ->
+  no_marker frame = true -> small_frame frame ->
+  encode bs m sess time raw = Ok (frame, sess') -> select_seq m sess raw = Ok (seq, sess') ->
+  frame_ok G bs frame (decoded_of bs m sess seq time).
+Proof.
+  intros bs m sess time raw frame sess' seq Hbs Hsess Htime Hwf Hnom Hsmall Henc Hseq.
+  destruct (encode_shape _ _ _ _ _ _ _ Henc) as [seq0 [rest [Hseq0 [Hrest HF]]]].
+  assert (seq0 = seq) by congruence. subst seq0. clear Hseq0.
+  pose proof (render_body_fields _ _ Hrest) as Erest. fold (body_of m) in Erest.
+  assert (Etot : render_total (msg_tags m) = cfields (body_of m)) by (unfold render_total; rewrite Hrest; exact Erest).
+  unfold wf_bs in Hbs. apply andb_true_iff in Hbs as [Hbs1 Hbs2]. apply soh_free_spec in Hbs2.
+  unfold wf_session in Hsess. apply andb_true_iff in Hsess as [Hsd Htg].
+  apply soh_free_spec in Hsd. apply soh_free_spec in Htg. apply soh_free_spec in Htime.
+  destruct (wf_msg_spec G m Hwf) as [Hmt [Hent [Hnd Hfol]]].
+  pose proof (select_seq_soh_free _ _ _ _ _ Hseq) as Hsq.
+  set (blen := enc_blen m sess seq time) in *. set (ck := enc_ck bs m sess seq time) in *.
+  set (body := body_of m) in *.
+  set (tailf := cfields body ++ [field T10 (fmt03 ck)]).
+  set (L := field T8 bs :: field T9 (n_to_dec blen) :: field T35 (msg_type m) :: field T49 (sender sess)
+            :: field T56 (target sess) :: field T34 seq :: field T52 time :: cfields body).
+  assert (Efields : frame_fields bs m sess seq time = L ++ [field T10 (fmt03 ck)]).
+  { unfold frame_fields, enc_fields. rewrite Etot. reflexivity. }
+  assert (Eck : ck = (sum_codes (flat L)) mod 256).
+  { unfold ck, enc_ck, checksum, enc_fields. rewrite Etot. reflexivity. }
+  assert (Hck256 : ck < 256) by (rewrite Eck; apply checksum_lt).
+  destruct (fmt03_facts ck Hck256) as [Hpy10 [Hlen10 Hsoh10]].
+  assert (Eblen : blen = N.of_nat (length (flat (field T35 (msg_type m) :: field T49 (sender sess)
+            :: field T56 (target sess) :: field T34 seq :: field T52 time :: cfields body)))).
+  { unfold blen, enc_blen, fields_len, enc_fields. rewrite Etot. reflexivity. }
+  assert (ElenF : length frame = (length (field T8 bs) + 1 + (length (field T9 (n_to_dec blen)) + 1 + (N.to_nat blen + 7)))%nat).
+  { assert (Hb : N.to_nat blen = length (flat (field T35 (msg_type m) :: field T49 (sender sess)
+            :: field T56 (target sess) :: field T34 seq :: field T52 time :: cfields body)))
+      by (rewrite Eblen, Nat2N.id; reflexivity).
+    rewrite Hb, HF, Efields, flat_app, app_length. unfold L. rewrite 2!flat_length.
+    assert (H10 : length (flat [field T10 (fmt03 ck)]) = 7%nat).
+    { cbn [flat map concat]. rewrite app_nil_r, app_length. unfold field. rewrite app_length. cbn [length].
+      rewrite Hlen10. reflexivity. }
+    rewrite H10. lia. }
+  assert (Hpy9 : py_int (n_to_dec blen) = Some (Z.of_N blen)).
+  { apply py_int_n_to_dec. unfold small_frame in Hsmall. lia. }
+  exists (n_to_dec blen), (field T35 (msg_type m)),
+         (field T49 (sender sess) :: field T56 (target sess) :: field T34 seq :: field T52 time :: tailf),
+         (Z.of_N blen),
+         (mkD ((hdr_root bs (n_to_dec blen) (msg_type m) (sender sess) (target sess) seq time ++ body)
+               ++ [(T10, VStr (fmt03 ck))]) [] (msg_type m) true).
+  cbv zeta.
+  assert (Eshape : field T8 bs :: field T9 (n_to_dec blen) :: field T35 (msg_type m)
+                   :: field T49 (sender sess) :: field T56 (target sess) :: field T34 seq :: field T52 time :: tailf
+                   = L ++ [field T10 (fmt03 ck)]) by reflexivity.
+  rewrite Eshape.
+  split; [rewrite HF, Efields; reflexivity|].
+  split.
+  { apply Forall_app. split; [|constructor; [apply field_soh_free; [apply cfreeb_spec; reflexivity | assumption] | constructor]].
+    unfold L. repeat (constructor; [apply field_soh_free; try assumption; try (apply cfreeb_spec; reflexivity)|]).
+    - apply n_to_dec_cfree. reflexivity.
+    - apply cfields_soh_free. assumption. }
+  split.
+  { rewrite HF, Efields. unfold L. rewrite <- app_comm_cons, flat_cons.
+    apply prefixb_spec in Hbs1 as [r Er]. rewrite Er. unfold field, T8, FIXDOT. cbn [app].
+    reflexivity. }
+  split.
+  { unfold no_marker in Hnom. destruct (find_sub MARK (skipn 5 frame)); [discriminate | reflexivity]. }
+  split; [exact Hpy9|].
+  split.
+  { unfold zlen. rewrite ElenF. lia. }
+  split.
+  { rewrite removelast_snoc.
+    assert (Esum : (sum_codes (join SOHs L) + 1) mod 256 = ck).
+    { rewrite Eck. f_equal. rewrite <- (join_flat L) by discriminate. rewrite sum_codes_app. reflexivity. }
+    rewrite Esum. unfold L. rewrite <- !app_comm_cons.
+    rewrite (header_loop G HG). rewrite fields_loop_app.
+    destruct (body_loop G HG m (hdr_root bs (n_to_dec blen) (msg_type m) (sender sess) (target sess) seq time)
+                ck (msg_type m) false Hwf eq_refl) as [D' [b2 [Lb [Cb Nb]]]].
+    fold body in Lb, Cb. rewrite Lb. rewrite fields_loop_one.
+    rewrite (trailer_step G HG ck D' b2 (msg_type m) false _ (fmt03 ck) (Z.of_N ck) Cb Nb); [|  | exact Hpy10].
+    - rewrite Z.eqb_refl. reflexivity.
+    - apply ct_get_none. rewrite map_app. apply mem_str_false. intro I. apply in_app_iff in I as [I|I].
+      + cbn in I. repeat (destruct I as [I|I]; [discriminate|]). destruct I.
+      + apply in_map_iff in I as [tv [E I]]. rewrite Forall_forall in Hent. destruct (Hent tv I) as [_ [B _]].
+        apply mem_str_false in B. apply B. rewrite E. cbn. tauto. }
+  split; [reflexivity|].
+  unfold decoded_of. fold blen ck body. unfold hdr_root. rewrite <- app_assoc. reflexivity.
+Qed.
+End Enc.
+
+(* ------------------------------------------------------------------ C01 *)
+
+Definition seq_clause (m : message) (sess : session) (raw : bool) (seq : str) (sess' : session) : Prop :=
+  (allocates m raw = true /\ seq = z_to_dec (next_out sess)
+   /\ sess' = mkSession (sender sess) (target sess) (next_out sess + 1))
+  \/ (allocates m raw = false /\ sess' = sess
+      /\ exists z, seq_of_msg (msg_tags m) = Ok z /\ seq = z_to_dec z).
+
+Theorem roundtrip : forall G bs m sess time raw frame sess',
+  wf_table G = true -> wf_bs bs = true -> wf_session sess = true -> soh_free time = true ->
+  wf_msg G m = true -> no_marker frame = true -> small_frame frame ->
+  encode bs m sess time raw = Ok (frame, sess') ->
+  exists seq,
+    select_seq m sess raw = Ok (seq, sess')
+    /\ (forall silent, decode G bs frame silent = Ok (Some (decoded_of bs m sess seq time), zlen frame, Some frame))
+    /\ seq_clause m sess raw seq sess'.
+Proof.
+  intros G bs m sess time raw frame sess' HG Hbs Hsess Htime Hwf Hnom Hsmall Henc.
+  destruct (encode_shape _ _ _ _ _ _ _ Henc) as [seq [rest [Hseq _]]].
+  exists seq. split; [exact Hseq|]. split.
+  - intro silent.
+    pose proof (encode_frame_ok G HG bs m sess time raw frame sess' seq Hbs Hsess Htime Hwf Hnom Hsmall Henc Hseq) as Hok.
+    pose proof (frame_ok_decode G bs frame _ [] silent Hok (or_introl eq_refl)) as Hd.
+    rewrite app_nil_r in Hd. exact Hd.
+  - exact (select_seq_spec _ _ _ _ _ Hseq).
+Qed.
+
+(* Stage 1 (flat body) and Stage 2 (one level of groups) are instances *)
+Corollary roundtrip_flat : forall G bs m sess time raw frame sess',
+  wf_table G = true -> wf_bs bs = true -> wf_session sess = true -> soh_free time = true ->
+  wf_msg G m = true -> flat_msg m = true -> no_marker frame = true -> small_frame frame ->
+  encode bs m sess time raw = Ok (frame, sess') ->
+  exists seq,
+    select_seq m sess raw = Ok (seq, sess')
+    /\ (forall silent, decode G bs frame silent = Ok (Some (decoded_of bs m sess seq time), zlen frame, Some frame))
+    /\ seq_clause m sess raw seq sess'.
+Proof. intros. eapply roundtrip; eassumption. Qed.
+
+Corollary roundtrip_depth1 : forall G bs m sess time raw frame sess',
+  wf_table G = true -> wf_bs bs = true -> wf_session sess = true -> soh_free time = true ->
+  wf_msg G m = true -> depth1_msg m = true -> no_marker frame = true -> small_frame frame ->
+  encode bs m sess time raw = Ok (frame, sess') ->
+  exists seq,
+    select_seq m sess raw = Ok (seq, sess')
+    /\ (forall silent, decode G bs frame silent = Ok (Some (decoded_of bs m sess seq time), zlen frame, Some frame))
+    /\ seq_clause m sess raw seq sess'.
+Proof. intros. eapply roundtrip; eassumption. Qed.
